@@ -13,6 +13,10 @@
 //	P1  op(8) x role(5) x all 64 values of the op's bits {U,S,O,B} x F x X (other ops' bits complemented) x small
 //	    stored tables x bearer variants {absent, valid allow/deny, wrong issuer, wrong container, wrong subject} x
 //	    object owner match/mismatch (PUT) x object location
+//	P4  the operation a request is CHECKED as: RPC / object type of the PUT {REGULAR, TOMBSTONE, LOCK, LINK} x requester
+//	    (5 kinds) x TTL {1,2} x server in container {yes,no} x all 16 values of the checked operation's bits (other
+//	    operations complemented: PUT and DELETE always differ) x final bit x tables denying/allowing PUT and DELETE
+//	    separately (stored / valid bearer)
 //	P2  every 1-record table (2 actions x op match x 7 targets x 5 filters) stored or carried by a valid bearer token
 //	    x op x role x B bit x object attribute x location
 //	P3  every 2-record table (quick: over a reduced record space, 80 records -> 6400 tables, 4 operations, stored only;
@@ -91,6 +95,9 @@ type recSpec struct {
 	SameOp bool   `json:"same_op"`
 	Target string `json:"target"` // USER OTHERS SYSTEM key-me key-stranger acc-me acc-stranger
 	Filter string `json:"filter"` // "" req:x=v req:x=w obj:k=v obj:k!=v
+	// OnOp, when set ("PUT" | "DELETE"), names the record's operation explicitly (SameOp is then ignored): used by the
+	// checked-operation product where PUT and DELETE rules must be told apart.
+	OnOp string `json:"on_op,omitempty"`
 }
 
 func (r recSpec) String() string {
@@ -101,6 +108,9 @@ func (r recSpec) String() string {
 	o := "op"
 	if !r.SameOp {
 		o = "other-op"
+	}
+	if r.OnOp != "" {
+		o = r.OnOp
 	}
 	return fmt.Sprintf("%s/%s/%s/%s", a, o, r.Target, r.Filter)
 }
@@ -127,6 +137,8 @@ type tcase struct {
 	Loc        string     `json:"loc,omitempty"`         // local | remote-binary | remote-resp (GET/HEAD)
 	OwnerMatch bool       `json:"owner_match,omitempty"` // PUT: object owner is the requester
 	TTL1       bool       `json:"ttl1,omitempty"`        // request TTL 1 (replication of tombstones by container nodes)
+	// NotInContainer: the server handling the request is NOT a node of the container (default: it is)
+	NotInContainer bool `json:"not_in_container,omitempty"`
 }
 
 var opIndex = map[string]int{"GET": 0, "HEAD": 1, "PUT": 2, "DELETE": 3, "SEARCH": 4, "RANGE": 5, "HASH": 6}
@@ -134,7 +146,19 @@ var opACL = map[string]acl.Op{"GET": acl.OpObjectGet, "HEAD": acl.OpObjectHead, 
 	"SEARCH": acl.OpObjectSearch, "RANGE": acl.OpObjectRange, "HASH": acl.OpObjectHash}
 
 // effective operation for access control
+func isPut(op string) bool { return strings.HasPrefix(op, "PUT") }
+
+// effOp: the operation a request is CHECKED as. It is a function of the RPC, the object type in the PUT header, the
+// sender's role and the TTL only (not of where the request is handled):
+//
+//	Get/Head/Delete/Search/Range RPC      -> that operation
+//	Put RPC, REGULAR / LOCK / LINK object -> PUT
+//	Put RPC, TOMBSTONE object             -> DELETE (saving a tombstone removes objects), except
+//	                                         sender is a container node AND TTL == 1 (replication) -> PUT
 func (c tcase) effOp() string {
+	if c.Op == "PUT-LOCK" || c.Op == "PUT-LINK" {
+		return "PUT"
+	}
 	if c.Op != "PUT-TOMBSTONE" {
 		return c.Op
 	}
@@ -211,11 +235,15 @@ func refBasic(role, op string, bits uint8) bool {
 func objectHeadersKnown(op string) bool {
 	// eACL object-attribute filters can only be evaluated where the protocol carries the object header:
 	// PUT (request), GET and HEAD (stored object / response). DELETE, RANGE, SEARCH know the address only.
-	return op == "GET" || op == "HEAD" || op == "PUT" || op == "PUT-TOMBSTONE"
+	return op == "GET" || op == "HEAD" || isPut(op)
 }
 
 func refRecordMatches(r recSpec, c tcase, group string) bool {
-	if !r.SameOp {
+	if r.OnOp != "" {
+		if r.OnOp != c.effOp() {
+			return false
+		}
+	} else if !r.SameOp {
 		return false
 	}
 	switch r.Target {
@@ -247,6 +275,12 @@ func refRecordMatches(r recSpec, c tcase, group string) bool {
 func reference(c tcase) refResult {
 	op := c.effOp()
 	var res refResult
+	if c.Op == "PUT-LINK" && c.NotInContainer {
+		// documented in PutRequestToInfo: a node outside the container does not check split-chain objects (it will not store
+		// them and would need other parts of the chain); the container nodes it forwards to do
+		res.served, res.why = true, "acl-skipped-split-object-on-non-container-node"
+		return res
+	}
 	if c.Bearer.Kind != "" && c.Bearer.Kind != "valid" && c.Bearer.Kind != "valid-unbound" {
 		res.bearerRejectAllowed = true
 	}
@@ -255,7 +289,7 @@ func reference(c tcase) refResult {
 		return res
 	}
 	system := c.Role == "container" || c.Role == "ir"
-	if (c.Op == "PUT" || c.Op == "PUT-TOMBSTONE") && c.Sticky && !system && !c.OwnerMatch {
+	if isPut(c.Op) && c.Sticky && !system && !c.OwnerMatch {
 		res.why = "sticky"
 		return res
 	}
@@ -311,6 +345,7 @@ type env struct {
 	w       *aclworld.World
 	chk     *aclchk.Checker
 	stored  *tableSpec // current case's stored table (read by the eACL source)
+	checked acl.Op     // operation the service resolved the last request to (0 = none)
 	curCase *tcase
 }
 
@@ -351,6 +386,9 @@ func eaclTable(recs []recSpec, c tcase, cnr *cid.ID) eacl.Table {
 		op := eacl.Operation(opACL[c.effOp()])
 		if !r.SameOp {
 			op = eacl.Operation(opACL[c.effOp()]%7 + 1)
+		}
+		if r.OnOp != "" {
+			op = eacl.Operation(opACL[r.OnOp])
 		}
 		var t eacl.Target
 		switch r.Target {
@@ -407,7 +445,7 @@ func newEnv(le *aclworld.LocalEngine) *env {
 }
 
 func sessionV1For(op string) *session.Object {
-	verb := map[string]protosession.ObjectSessionContext_Verb{"GET": 2, "HEAD": 3, "PUT": 1, "DELETE": 5, "SEARCH": 4, "RANGE": 6, "PUT-TOMBSTONE": 5}[op]
+	verb := map[string]protosession.ObjectSessionContext_Verb{"GET": 2, "HEAD": 3, "PUT": 1, "DELETE": 5, "SEARCH": 4, "RANGE": 6, "PUT-TOMBSTONE": 5, "PUT-LOCK": 1, "PUT-LINK": 1}[op]
 	a := uid("alice")
 	body := &protosession.SessionToken_Body{
 		Id:         []byte{1, 2, 3, 4, 5, 6, 0x47, 8, 0x89, 10, 11, 12, 13, 14, 15, 16},
@@ -498,6 +536,7 @@ func (e *env) decide(c tcase) (served bool, stage string) {
 	cnr.SetOwner(uid("alice"))
 	cnr.SetBasicACL(c.basic())
 	e.w.SetContainer(cA, cnr)
+	e.w.SetInContainer(!c.NotInContainer)
 	e.stored, e.curCase = &c.Stored, &c
 	ttl := uint32(2)
 	if c.TTL1 {
@@ -537,7 +576,7 @@ func (e *env) decide(c tcase) (served bool, stage string) {
 		info, err = e.w.Svc.SearchV2RequestToInfo(ctx, r, cA, tok)
 		req = r
 		objID = oid.ID{}
-	case "PUT", "PUT-TOMBSTONE":
+	case "PUT", "PUT-TOMBSTONE", "PUT-LOCK", "PUT-LINK":
 		ow := uid("dave")
 		if c.OwnerMatch {
 			ow = uid(requesterWho(c.Role))
@@ -545,9 +584,20 @@ func (e *env) decide(c tcase) (served bool, stage string) {
 		hdr := &protoobject.Header{Version: &refs.Version{Major: 2, Minor: 18}, ContainerId: addr.ContainerId, OwnerId: &refs.OwnerID{Value: ow[:]},
 			CreationEpoch: curEpoch, Attributes: []*protoobject.Header_Attribute{{Key: "k", Value: c.ObjAttr}}}
 		op := acl.OpObjectPut
-		if c.Op == "PUT-TOMBSTONE" {
+		switch c.Op {
+		case "PUT-TOMBSTONE":
 			hdr.ObjectType = protoobject.ObjectType_TOMBSTONE
-			op = acl.OpObjectDelete
+			op = acl.OpObjectDelete // what server.go passes for tombstones
+		case "PUT-LOCK":
+			hdr.ObjectType = protoobject.ObjectType_LOCK
+		case "PUT-LINK":
+			// link object of a V2 split chain: split header with parent header (the eACL headers of such a PUT are the parent's)
+			par := &protoobject.Header{Version: hdr.Version, ContainerId: hdr.ContainerId, OwnerId: hdr.OwnerId, CreationEpoch: curEpoch,
+				Attributes: hdr.Attributes}
+			pid, fid := hashID("c28-link-parent"), hashID("c28-link-first")
+			hdr = &protoobject.Header{Version: hdr.Version, ContainerId: hdr.ContainerId, OwnerId: hdr.OwnerId, CreationEpoch: curEpoch,
+				ObjectType: protoobject.ObjectType_LINK,
+				Split:      &protoobject.Header_Split{Parent: &refs.ObjectID{Value: pid[:]}, ParentHeader: par, First: &refs.ObjectID{Value: fid[:]}}}
 		}
 		init := &protoobject.PutRequest_Body_Init{Header: hdr}
 		r := &protoobject.PutRequest{Body: &protoobject.PutRequest_Body{ObjectPart: &protoobject.PutRequest_Body_Init_{Init: init}}, MetaHeader: meta, VerifyHeader: vh}
@@ -563,13 +613,17 @@ func (e *env) decide(c tcase) (served bool, stage string) {
 		}
 		return true, ""
 	}
+	if errors.Is(err, aclsvc.ErrSkipRequest) {
+		return true, "acl-skipped" // server.go: no ACL check at all for this request
+	}
 	if err != nil {
 		return false, "request-info"
 	}
+	e.checked = info.Operation
 	if !e.chk.CheckBasicACL(info) {
 		return false, "basic"
 	}
-	if c.Op == "PUT" || c.Op == "PUT-TOMBSTONE" {
+	if isPut(c.Op) {
 		if !e.chk.StickyBitCheck(info, objOwner) {
 			return false, "sticky"
 		}
@@ -616,10 +670,18 @@ func (x *runner) check(e *env, c tcase) {
 	var pan any
 	func() {
 		defer func() { pan = recover() }()
+		e.checked = 0
 		served, stage = e.decide(c)
 	}()
 	if pan != nil {
 		x.viol("panic:op="+c.Op, fmt.Sprintf("%+v: %v", c, pan), c)
+		return
+	}
+	if want := opACL[c.effOp()]; pan == nil && e.checked != 0 && c.Op != "HASH" && e.checked != want {
+		// direct oracle on the resolved RequestInfo: the operation the request is checked as
+		x.viol(fmt.Sprintf("checked-as-wrong-operation:rpc=%s:checked-as=%s:spec=%s:sender-is-container-node=%v:ttl1=%v:server-in-container=%v",
+			c.Op, e.checked, want, c.Role == "container", c.TTL1, !c.NotInContainer),
+			fmt.Sprintf("%+v: the service resolved the request to operation %s; spec (RPC, object type, sender role, TTL): %s", c, e.checked, want), c)
 		return
 	}
 	key := fmt.Sprintf("ref=%v(%s) impl=%v(%s)", ref.served, ref.why, served, stage)
@@ -663,7 +725,7 @@ func (x *runner) viol(fp, what string, rep any) {
 }
 
 var (
-	allOps    = []string{"GET", "HEAD", "PUT", "DELETE", "SEARCH", "RANGE", "PUT-TOMBSTONE"}
+	allOps    = []string{"GET", "HEAD", "PUT", "DELETE", "SEARCH", "RANGE", "PUT-TOMBSTONE", "PUT-LOCK"}
 	allRoles  = []string{"owner", "container", "ir", "others", "owner-session"}
 	targets7  = []string{"USER", "OTHERS", "SYSTEM", "key-me", "key-stranger", "acc-me", "acc-stranger"}
 	targets4  = []string{"USER", "OTHERS", "key-me", "key-stranger"}
@@ -677,7 +739,7 @@ func records(targets []string) []recSpec {
 		for _, same := range []bool{true, false} {
 			for _, t := range targets {
 				for _, f := range filters5 {
-					r = append(r, recSpec{deny, same, t, f})
+					r = append(r, recSpec{deny, same, t, f, ""})
 				}
 			}
 		}
@@ -719,23 +781,23 @@ func generate(quick bool, emit func(tcase)) {
 						}
 						g := groupTarget(role)
 						other := map[string]string{"USER": "OTHERS", "OTHERS": "USER"}[g]
-						stored := []tableSpec{{None: true}, {}, {Recs: []recSpec{{true, true, g, ""}}}, {Recs: []recSpec{{false, true, g, ""}}},
-							{Recs: []recSpec{{true, true, other, ""}}}, {Recs: []recSpec{{true, true, "key-me", ""}, {false, true, g, ""}}}}
+						stored := []tableSpec{{None: true}, {}, {Recs: []recSpec{{true, true, g, "", ""}}}, {Recs: []recSpec{{false, true, g, "", ""}}},
+							{Recs: []recSpec{{true, true, other, "", ""}}}, {Recs: []recSpec{{true, true, "key-me", "", ""}, {false, true, g, "", ""}}}}
 						for _, stb := range stored {
 							for _, bk := range bearerAll {
 								brs := [][]recSpec{nil}
 								if bk != "" {
-									brs = [][]recSpec{{{false, true, g, ""}}, {{true, true, g, ""}}}
+									brs = [][]recSpec{{{false, true, g, "", ""}}, {{true, true, g, "", ""}}}
 								}
 								for _, br := range brs {
 									for _, loc := range locs(op) {
 										c := base
 										c.Stored, c.Bearer, c.Loc = stb, bearerSpec{bk, br}, loc
-										if op == "PUT" || op == "PUT-TOMBSTONE" {
+										if isPut(op) {
 											for _, om := range []bool{true, false} {
 												c.OwnerMatch = om
 												emit(c)
-												if op == "PUT-TOMBSTONE" && role == "container" {
+												if op == "PUT-TOMBSTONE" {
 													c.TTL1 = true
 													emit(c)
 													c.TTL1 = false
@@ -743,6 +805,41 @@ func generate(quick bool, emit func(tcase)) {
 											}
 											continue
 										}
+										emit(c)
+									}
+								}
+							}
+						}
+					}
+				}
+			}
+		}
+	}
+	// ---- P4: the operation a request is checked as. RPC / object type of the PUT x requester x TTL x server in container
+	// x all 16 values of the checked operation's bits (the other operations complemented, so PUT and DELETE always differ)
+	// x final bit x tables that deny or allow PUT and DELETE separately, stored or carried by a valid bearer token.
+	for _, op := range []string{"PUT", "PUT-TOMBSTONE", "PUT-LOCK", "PUT-LINK", "GET", "HEAD", "DELETE", "SEARCH", "RANGE"} {
+		for _, role := range allRoles {
+			g := groupTarget(role)
+			on := func(deny bool, o string) recSpec { return recSpec{Deny: deny, Target: g, OnOp: o} }
+			tables := []tableSpec{{None: true}, {Recs: []recSpec{on(true, "PUT")}}, {Recs: []recSpec{on(true, "DELETE")}},
+				{Recs: []recSpec{on(false, "PUT"), on(true, "DELETE")}}, {Recs: []recSpec{on(true, "PUT"), on(false, "DELETE")}}}
+			if !isPut(op) {
+				tables = tables[:3]
+			}
+			for _, ttl1 := range []bool{false, true} {
+				for _, notIn := range []bool{false, true} {
+					for bits := 0; bits < 16; bits++ {
+						for _, fin := range []bool{false, true} {
+							for _, loc := range locs(op)[:1] {
+								base := tcase{Op: op, Role: role, Bits: uint8(bits), Final: fin, ObjAttr: "v", Loc: loc, OwnerMatch: true, TTL1: ttl1, NotInContainer: notIn}
+								for _, tb := range tables {
+									c := base
+									c.Stored = tb
+									emit(c)
+									if !tb.None && isPut(op) {
+										c.Stored = tableSpec{None: true}
+										c.Bearer = bearerSpec{"valid", tb.Recs}
 										emit(c)
 									}
 								}
@@ -766,7 +863,7 @@ func generate(quick bool, emit func(tcase)) {
 							c.Stored = tableSpec{Recs: []recSpec{rec}}
 							emit(c)
 							g := groupTarget(role)
-							for _, stb := range []tableSpec{{None: true}, {Recs: []recSpec{{true, true, g, ""}}}} {
+							for _, stb := range []tableSpec{{None: true}, {Recs: []recSpec{{true, true, g, "", ""}}}} {
 								for _, bk := range []string{"valid", "valid-unbound"} {
 									c := base
 									c.Stored = stb
@@ -802,7 +899,7 @@ func generate(quick bool, emit func(tcase)) {
 							c.Stored = tableSpec{Recs: []recSpec{r1, r2}}
 							emit(c)
 							if !quick {
-								c.Stored = tableSpec{Recs: []recSpec{{true, true, groupTarget(role), ""}}}
+								c.Stored = tableSpec{Recs: []recSpec{{true, true, groupTarget(role), "", ""}}}
 								c.Bearer = bearerSpec{"valid", []recSpec{r1, r2}}
 								emit(c)
 							}
@@ -886,7 +983,8 @@ func main() {
 	r.Set("violation_classes", x.viols)
 	x.mu.Unlock()
 	r.Set("cases_generated", total)
-	r.Rule("products P1-P3 of the file header, every combination evaluated once; non-trivial = case whose reference decision is not settled by the basic bits alone " +
+	r.Rule("P4: the operation a request is checked as = f(RPC, object type of the PUT header, sender role, TTL) exactly (tombstone PUT -> DELETE unless the SENDER is a container node and TTL is 1; not a function of where it is handled), over RPC/object type x requester x TTL x server-in-container x bits x PUT/DELETE tables, judged on the resolved RequestInfo and on the decision; " +
+		"products P1-P3 of the file header, every combination evaluated once; non-trivial = case whose reference decision is not settled by the basic bits alone " +
 		"(sticky bit, eACL record match, bearer/stored table selection, no-match fallback), distinct by the full case description")
 	r.Assume("composition of RequestInfo resolution, CheckBasicACL, StickyBitCheck and CheckEACL (request phase, then header re-check for GET/HEAD) is replicated from pkg/services/object/server.go; the server's own code is not executed",
 		"bearer tokens reach the ACL service already authenticated (C30); only their applicability (issuer, container, subject, B bit) is in scope",
